@@ -143,12 +143,16 @@ pub fn parallel_parse(
             });
             match result {
                 Ok(Some(parsed_data)) => {
-                    tx.send(Ok(parsed_data)).unwrap();
+                    // The collector stops listening as soon as it has seen an error (from
+                    // another walker thread): that is not a reason to panic here.
+                    if tx.send(Ok(parsed_data)).is_err() {
+                        return WalkState::Quit;
+                    }
                     WalkState::Continue
                 }
                 Ok(None) => WalkState::Continue,
                 Err(err) => {
-                    tx.send(Err(err)).unwrap();
+                    let _ = tx.send(Err(err));
                     WalkState::Quit
                 }
             }
